@@ -161,13 +161,13 @@ type largeHuffCodeTable struct {
 	longCodeLookup  [1264]uint16
 }
 
-func (t *largeHuffCodeTable) genForLitLen(ctx *dynamicHeaderReader, multisym uint32) {
+func (t *largeHuffCodeTable) genForLitLen(ctx *dynamicHeaderReader, multisym uint32) (ok bool) {
 	codeListLen := uint32(ctx.litCount[maxLitLenCount-1])
 	if codeListLen == 0 {
 		for i := range t.shortCodeLookup {
 			t.shortCodeLookup[i] = 0
 		}
-		return
+		return true
 	}
 
 	// Determine the length of the first code
@@ -202,7 +202,7 @@ func (t *largeHuffCodeTable) genForLitLen(ctx *dynamicHeaderReader, multisym uin
 		}
 		t.encodeTriples(ctx, lastLen, minLen)
 	}
-	t.encodeLongCodes(ctx, codeListLen)
+	return t.encodeLongCodes(ctx, codeListLen)
 }
 
 func (t *largeHuffCodeTable) encodeSingles(ctx *dynamicHeaderReader, length uint32) {
@@ -308,7 +308,7 @@ func (t *largeHuffCodeTable) encodeTriples(ctx *dynamicHeaderReader, length uint
 	}
 }
 
-func (t *largeHuffCodeTable) encodeLongCodes(ctx *dynamicHeaderReader, codeListLen uint32) {
+func (t *largeHuffCodeTable) encodeLongCodes(ctx *dynamicHeaderReader, codeListLen uint32) (ok bool) {
 	idx := ctx.litCount[litLenLookupBits+1]
 	longCodeLength := codeListLen - uint32(idx)
 	longCodeList := ctx.codeList[idx:]
@@ -334,6 +334,15 @@ func (t *largeHuffCodeTable) encodeLongCodes(ctx *dynamicHeaderReader, codeListL
 			}
 		}
 
+		if longCodeLookupLength+(1<<(maxLen-litLenLookupBits)) > uint32(len(t.longCodeLookup)) {
+			// more long codes than any complete code has: only an incomplete (corrupt) code gets here
+			return false
+		}
+		// unassigned codes of this group must fail to decode, not hit an earlier block's entries
+		for x := longCodeLookupLength; x < longCodeLookupLength+(1<<(maxLen-litLenLookupBits)); x++ {
+			t.longCodeLookup[x] = 0
+		}
+
 		for j := 0; j < int(tempCodeLength); j++ {
 			sym1Index := uint32(tempCodeList[j])
 			sym1 := indexToSym(sym1Index)
@@ -352,4 +361,5 @@ func (t *largeHuffCodeTable) encodeLongCodes(ctx *dynamicHeaderReader, codeListL
 		t.shortCodeLookup[firstBits] = uint32(longCodeLookupLength) | uint32(maxLen)<<largeShortMaxLenOffset | largeFlagBit
 		longCodeLookupLength += uint32(1 << (maxLen - litLenLookupBits))
 	}
+	return true
 }
